@@ -290,6 +290,18 @@ func init() {
 					u = append(u, x)
 				}
 			}
+			// part A over batches that contain rejected entries
+			for _, k := range []string{"nonwriter", "badancestor"} {
+				for _, v := range []string{"one", "two"} {
+					for _, l := range []string{"first", "last", "split-rv"} {
+						for _, r := range []string{"sync", "topic"} {
+							a := C10Arg{Kind: k, Valid: v, Layout: l, Route: r, Bound: 1}
+							b, _ := json.Marshal(a)
+							u = append(u, explore.Unit{Name: "events-with-" + a.Name(), Arg: "C" + string(b)})
+						}
+					}
+				}
+			}
 			u = append(u, c16bUnits(C16BArg{K: kB, Reads: rB, Bound: bound}, 32)...)
 			u = append(u, c16bUnits(C16BArg{K: 1, Reads: 1, Bound: -1}, 8)...)
 			u = append(u, c16bUnits(C16BArg{K: 2, Reads: 1, Bound: bound, Global: true}, 8)...)
@@ -305,6 +317,29 @@ func init() {
 			arg := c.Spec.Unit.Arg
 			if strings.HasPrefix(arg, "B") {
 				runC16B(c, arg[1:])
+				return
+			}
+			if strings.HasPrefix(arg, "C") {
+				var a C10Arg
+				if err := json.Unmarshal([]byte(arg[1:]), &a); err != nil {
+					c.Stats.HarnessErrs = append(c.Stats.HarnessErrs, err.Error())
+					return
+				}
+				d := &explore.ScheduleDFS{
+					Scenario: "events-with-" + a.Name(),
+					New: func() (explore.World, error) {
+						w, err := NewC10World(a)
+						if err == nil {
+							w.MonitorEvents()
+						}
+						return w, err
+					},
+					Bound: a.Bound, Horizon: 200, Stats: c.Stats, Journal: c.JournalHist, Expired: c.Expired,
+				}
+				d.Run()
+				for i := range c.Stats.Violations {
+					c.Stats.Violations[i].Property = "C16"
+				}
 				return
 			}
 			c.Spec.Unit.Arg = arg[1:]
